@@ -176,6 +176,14 @@ ADD8 = {
  "C19": ("guard-before-use in the `in` / `instanceof` arms", "A non-object right operand of `in` / `instanceof` raises a TypeError."),
  "C08": ("[[GetOwnProperty]] census in the Array.prototype algorithms", "Elements are tested with [[HasProperty]] and read with [[Get]], never looked up as own properties."),
 }
+ADD9 = {
+ "C05": ("exhaustive evaluation of the comparison implementation over the case analysis of 11.9.3 / 11.9.6 / 11.8.5", "All eight comparison operators agree with ES5 on every ordered pair of twelve operands (1152 cases), including which operand ToPrimitive is applied to first; structural rules on the same function defer to this evaluation when the code is restructured."),
+ "C01": ("exhaustive evaluation of the comparison implementation", "Results and conversion order of == != === !== < > <= >= on the operand table."),
+}
+for _pid, (_t, _d) in ADD9.items():
+    t0, d0, n0 = P[_pid]
+    P[_pid] = (t0 + "; " + _t, d0 + " Also: " + _d, n0)
+
 for _pid, (_t, _d) in ADD8.items():
     t0, d0, n0 = P[_pid]
     P[_pid] = (t0 + "; " + _t, d0 + " Also: " + _d, n0)
